@@ -574,7 +574,7 @@ pub fn check(tier: Tier) -> i32 {
         "FunctionBuilder::new + add_local* + helpers + [set_name] + finish_module, returned id exported; history axes full product: 4 bases (empty, 2 locals, 2 imports + 2 locals with names, imports only) x edit before x edit after (none, add_import_func, another built function, delete an unreferenced local) x name set/unset; content axes: 3249 signatures (<= 2 params x <= 2 results over i32 i64 f32 f64 v128 funcref externref), 85 local lists (<= 3 over i32 i64 v128 externref), all bodies of <= {} stack-neutral helpers (nop; i32.const+drop; local.get 0+drop; block..end; call of a []->[] function) followed by one constant per result; {}; inapplicable combinations (delete without a local function, call without callee, local.get without param) are not part of the space; non-trivial class = (base, before>after, named?, signature shape, run-length pattern of locals, body helper list)",
         body_len,
         tier.pick(
-            "quick: history product x (base content [i32]->[i32] / no locals / empty body + every single content deviation)",
+            "quick: history product x (base content [i32]->[i32] / no locals / empty body + every single content deviation) + base history x (<= 2 content deviations)",
             "thorough: history product x (<= 1 content deviation) + (<= 1 history deviation) x (<= 2 content deviations)"
         )
     );
@@ -641,8 +641,10 @@ pub fn check(tier: Tier) -> i32 {
         flush(&mut run, "history product x <=1 content deviation", &mut cases);
     }
     // family 2 (thorough): <= 1 history deviation x pairs of content deviations
-    if tier == Tier::Thorough {
-        for h in h1.iter() {
+    {
+        // quick: on the base history only; thorough: on every single history deviation
+        let hs: Vec<Hist> = if tier == Tier::Thorough { h1.clone() } else { vec![base_h.clone()] };
+        for h in hs.iter() {
             let mut cases: Vec<Case> = vec![];
             // sig x locals, sig x body
             for s in sig_devs.iter() {
